@@ -16,6 +16,26 @@ for tc in ET.parse(out).getroot().iter("testcase"):
         passed.add("%s::%s" % (tc.get("classname"), tc.get("name")))
 os.unlink(out)
 missing = [t for t in base["stable_pass"] if t not in passed]
+# timing-sensitive tests (test_timeout, ...) flake under heavy machine load: re-run what is missing, alone, up to twice
+for attempt in range(2):
+    if not missing:
+        break
+    ids = []
+    for t in missing:
+        mod, name = t.split("::")
+        parts = mod.split(".")
+        ids.append("%s.py::%s::%s" % ("/".join(parts[:-1]), parts[-1], name))
+    out2 = tempfile.mktemp(suffix=".xml")
+    subprocess.run(cmd[:-1] + ["--junitxml=" + out2, "-p", "no:xdist"] + ids, cwd=os.environ.get("VERIF_REPO", "/repo"), env=env,
+                   stdout=subprocess.PIPE, stderr=subprocess.STDOUT)
+    try:
+        for tc in ET.parse(out2).getroot().iter("testcase"):
+            if not any(c.tag in ("failure", "error", "skipped") for c in tc):
+                passed.add("%s::%s" % (tc.get("classname"), tc.get("name")))
+        os.unlink(out2)
+    except Exception:
+        pass
+    missing = [t for t in base["stable_pass"] if t not in passed]
 print("passed %d, baseline stable %d, missing %d" % (len(passed), len(base["stable_pass"]), len(missing)))
 for m in missing:
     print("MISSING", m)
